@@ -247,10 +247,20 @@ def shape_stage(ctx, res, nfonts, ntexts, as_failure=False, gen_kw=None, fontgen
                                              "font_hex": open(fonts[int(l.split("=")[1].split(",")[0])], "rb").read().hex(), "api_line": l})
             if m is None:
                 continue
-            mm = re.match(r"trie=(\S*) (loop=\S+ passes=\S+ exceeded=\S+ )?(noid=\S+ )?(.*)", m)
+            mm = re.match(r"trie=(\S*) (loop=\S+ passes=\S+ exceeded=\S+ )?(noid=\S+ )?(?:gidok=\S+ )?(.*)", m)
             tb, mloop, mbody = (mm.group(1), (mm.group(2) or "").strip(), mm.group(4).strip()) if mm else ("?", "", m)
             if mm and mm.group(3):
                 res.count("shape:positioning-passes-neither-insert-nor-delete=" + mm.group(3).strip()[5:])
+            gk = re.search(r" gidok=(\S+) ", m)
+            if gk:
+                # the hypothesis of glyph_ids_are_real_glyphs (cmap and classes name only real glyphs), evaluated by the model on this font
+                res.count("shape:cmap-and-classes-name-real-glyphs=" + gk.group(1))
+                if gk.group(1) == "1":
+                    bad = [int(x[2:].split(",")[0]) for x in m.split() if x.startswith("s:") and int(x[2:].split(",")[0]) >= fontsynth.NG]
+                    if bad:
+                        res.failures.append({"harness": "h_seg", "mode": "shape", "line": ml, "impl": ibody[:600], "model": m[:600], "exe_args": [], "tag": "gid-range",
+                                             "font_hex": open(fonts[int(l.split("=")[1].split(",")[0])], "rb").read().hex(), "api_line": l,
+                                             "why": "the model returns glyph id %d >= %d on a font that meets the hypothesis of glyph_ids_are_real_glyphs" % (bad[0], fontsynth.NG)})
             if "exceeded=1" in iloop:
                 res.failures.append({"harness": "h_seg", "mode": "shape", "line": ml, "impl": iloop, "model": mloop, "exe_args": [], "tag": "loop-bound",
                                      "font_hex": open(fonts[int(l.split("=")[1].split(",")[0])], "rb").read().hex(), "api_line": l,
@@ -288,7 +298,7 @@ def replay_shape(obj):
         iloop, _, ibody = raw.partition(" | ") if raw.startswith("loop=") else ("", "", raw)
         out = proj_dump(ibody)
         m = lib.run_lines([lib.driver_path(), "shape"], [obj["line"]])[0]
-        mm = re.match(r"trie=(\S*) (loop=\S+ passes=\S+ exceeded=\S+ )?(noid=\S+ )?(.*)", m)
+        mm = re.match(r"trie=(\S*) (loop=\S+ passes=\S+ exceeded=\S+ )?(noid=\S+ )?(?:gidok=\S+ )?(.*)", m)
         if mm:
             print("loop  : impl %s | model %s" % (iloop, (mm.group(2) or "").strip()))
             m = mm.group(4).strip()
